@@ -2246,12 +2246,23 @@ func opcodeCheckMultiSig(op *ParsedOpcode, t *thread) error {
 			}
 			sigInfo.parsed = true
 			if err != nil {
+				// The element respects the signature encoding rules but is
+				// no signature; the key it is paired with must still respect
+				// the encoding the flags demand.
+				if err := t.checkPubKeyEncoding(pubKey); err != nil {
+					return err
+				}
 				continue
 			}
 			sigInfo.parsedSignature = parsedSig
 		} else {
 			// Skip to the next pubkey if the signature is invalid.
 			if sigInfo.parsedSignature == nil {
+				// As above: every key the element is tried against is
+				// held to the encoding rules.
+				if err := t.checkPubKeyEncoding(pubKey); err != nil {
+					return err
+				}
 				continue
 			}
 
